@@ -59,6 +59,10 @@ type Case struct {
 
 	PoolSeed, PoolStride int // which pool entry sits at which index
 
+	// re-use of the same Fetcher / Scanner object
+	PreStop bool   // Fetcher.Stop() is called before the first Run (documented no-op)
+	Again   *Again // a second Run / Scan on the same object after the first has returned
+
 	// scanner only
 	Matcher     int
 	MatchArg    int
@@ -66,6 +70,13 @@ type Case struct {
 	PrecertOnly bool
 	Workers     int
 	Buffer      int
+}
+
+// Again is the stop plan of the second call on the same object.
+type Again struct {
+	GapMs    int64
+	StopKind int
+	StopAtMs int64 // relative to the start of the second call
 }
 
 func weighted(t *rapid.T, label string, w ...int) int {
@@ -273,6 +284,25 @@ func genCase(t *rapid.T, scan bool) Case {
 		c.StopAtMs = genStopAt(t, at)
 	}
 
+	// re-use: a second call on the same object, and / or a Stop() before the first call
+	if weighted(t, "again", 3, 1) == 1 {
+		a := &Again{GapMs: []int64{0, 0, 5, 900, 70000}[rapid.IntRange(0, 4).Draw(t, "againGap")]}
+		if c.Continuous {
+			a.StopKind = rapid.SampledFrom(kinds).Draw(t, "againStopKind")
+			a.StopAtMs = -1
+			if weighted(t, "againStopLate", 2, 1) == 1 {
+				a.StopAtMs = genStopAt(t, 0)
+			}
+		} else if weighted(t, "againStopped", 2, 1) == 1 {
+			a.StopKind = rapid.SampledFrom(kinds).Draw(t, "againStopKind")
+			a.StopAtMs = genStopAt(t, 0)
+		}
+		c.Again = a
+	}
+	if !scan {
+		c.PreStop = weighted(t, "preStop", 7, 1) == 1
+	}
+
 	if scan {
 		c.Matcher = weighted(t, "matcher", 3, 1, 2, 3, 3, 1, 1, 1)
 		c.MatchArg = rapid.IntRange(0, 400).Draw(t, "matchArg")
@@ -328,6 +358,9 @@ func (c *Case) normalise() {
 	if c.StopKind == stopStop && c.StopAtMs == 0 {
 		c.StopAtMs = 1
 	}
+	if c.Again != nil && c.Again.StopKind == stopStop && c.Again.StopAtMs == 0 {
+		c.Again.StopAtMs = 1
+	}
 }
 
 func (c *Case) finalSize() int64 {
@@ -381,16 +414,32 @@ func (c *Case) bound() time.Duration {
 // settle: quick-growth window of updateSTH (45 s) + its longest pause (< 60 s) + slack, on top of bound.
 func (c *Case) settle() time.Duration { return c.bound() + 20*time.Minute }
 
-func (c *Case) stopAt() time.Duration {
-	if c.StopAtMs >= 0 {
-		return time.Duration(c.StopAtMs) * time.Millisecond
-	}
-	return c.lastGrowth() + c.settle()
+// phaseSpec is the stop plan of one Run / Scan call of a case (a case has one call, or two on the same object).
+type phaseSpec struct {
+	StopKind int
+	StopAtMs int64 // relative to the start of the call; < 0: after growth has stopped plus the settling period
+	GapMs    int64 // idle virtual time before the call
 }
 
-// outcome is everything observed about one run, judged outside the bubble.
+func (c *Case) phases() []phaseSpec {
+	ps := []phaseSpec{{StopKind: c.StopKind, StopAtMs: c.StopAtMs}}
+	if c.Again != nil {
+		ps = append(ps, phaseSpec{StopKind: c.Again.StopKind, StopAtMs: c.Again.StopAtMs, GapMs: c.Again.GapMs})
+	}
+	return ps
+}
+
+// outcome is everything observed about one call (phase) of a case, judged outside the bubble. The
+// flags about the whole bubble (watchdog, deadlock, race, breaches seen by the log) sit on the last
+// phase that was started.
 type outcome struct {
-	timedOut   bool // the virtual-time watchdog fired: Run / Scan had not returned
+	phase      int
+	spec       phaseSpec
+	startAt    time.Duration // when the call was made
+	planStop   time.Duration // absolute instant planned for Stop / cancel (valid when spec.StopKind != stopNever)
+	completeBy time.Duration // a stop at or after this instant leaves a continuous run time to deliver everything
+	firstSTH   int64         // tree size of the first get-sth ever answered to this object, as known when the call ended
+	timedOut   bool          // the virtual-time watchdog fired: Run / Scan had not returned
 	deadlock   string
 	raced      bool // the case's sub-test was failed by the testing package: the race detector reported
 	returned   bool
@@ -403,98 +452,155 @@ type outcome struct {
 	fake       *fakeLog
 }
 
+// runState is shared with the callbacks of the code under test.
+type runState struct {
+	returned atomic.Bool  // the current call has returned
+	phase    atomic.Int32 // index of the current call
+}
+
 // runCase executes one case in a bubble. mk builds the code under test around the scripted log and
-// returns the blocking call and (optionally) the graceful stop function.
-func runCase(t *testing.T, prop string, c *Case, log []truth, mk func(f *fakeLog, returned *atomic.Bool) (run func(ctx context.Context) error, stop func())) *outcome {
-	o := &outcome{}
-	limit := c.bound() + 3*time.Hour
-	if c.StopKind != stopNever {
-		limit += c.stopAt()
+// returns the blocking call and (optionally) the graceful stop function; the call is made once per
+// phase on the same object.
+func runCase(t *testing.T, prop string, c *Case, log []truth, mk func(f *fakeLog, st *runState) (run func(ctx context.Context) error, stop func())) []*outcome {
+	specs := c.phases()
+	var limit time.Duration
+	for _, sp := range specs {
+		limit += c.bound() + 3*time.Hour + time.Duration(sp.GapMs)*time.Millisecond
+		if sp.StopKind != stopNever {
+			if sp.StopAtMs >= 0 {
+				limit += time.Duration(sp.StopAtMs) * time.Millisecond
+			} else {
+				limit += c.lastGrowth() + c.settle()
+			}
+		}
 	}
 	var amu sync.Mutex
+	var outs []*outcome
+	var aborts []harness.Violation
+	var deadlock string
+	var res vt.Result
+	var theFake *fakeLog
+	clean := true
 	func() {
 		defer func() {
 			if r := recover(); r != nil {
-				o.deadlock = fmt.Sprint(r)
+				deadlock = fmt.Sprint(r)
 			}
 		}()
-		var res vt.Result
 		// One sub-test per case: the testing package checks the race detector's error count when a
 		// (sub-)test ends, so a data race inside the code under test is attributed to the case that
 		// provoked it (and stays attributable while rapid shrinks).
-		clean := t.Run("case", func(st *testing.T) {
+		clean = t.Run("case", func(st *testing.T) {
 			res = vt.Run(st, limit, func(ctx context.Context) {
-				runCtx, cancel := context.WithCancel(ctx)
-				defer cancel()
-				var returned atomic.Bool
+				runCtx, cancelAll := context.WithCancel(ctx)
+				defer cancelAll()
+				state := &runState{}
 				fake := newFakeLog(c, log, func(sig, msg string) {
 					amu.Lock()
-					o.aborts = append(o.aborts, harness.Violation{Sig: sig, Msg: msg})
+					aborts = append(aborts, harness.Violation{Sig: sig, Msg: msg})
 					amu.Unlock()
-					cancel()
+					cancelAll()
 				})
-				o.fake = fake
-				run, stop := mk(fake, &returned)
-				done := make(chan struct{})
-				stopperDone := make(chan struct{})
-				go func() {
-					defer close(stopperDone)
-					if c.StopKind == stopNever {
-						return
+				theFake = fake
+				run, stop := mk(fake, state)
+				if c.PreStop && stop != nil {
+					stop() // "Does nothing if there was no preceding Run invocation"
+				}
+				for i, sp := range specs {
+					if i > 0 {
+						if !vt.Sleep(runCtx, time.Duration(sp.GapMs)*time.Millisecond) {
+							return
+						}
+						fake.newPhase()
 					}
-					tm := time.NewTimer(c.stopAt())
-					defer tm.Stop()
-					select {
-					case <-tm.C:
-					case <-done:
-						return
-					case <-ctx.Done():
-						return
-					}
-					amu.Lock()
-					o.stopIssued = true
-					o.stopAt = time.Since(fake.start)
-					amu.Unlock()
-					if c.StopKind == stopStop && stop != nil {
-						stop()
+					o := &outcome{phase: i, spec: sp, fake: fake, firstSTH: -1}
+					o.startAt = time.Since(fake.start)
+					o.completeBy = max(o.startAt, c.lastGrowth()) + c.settle()
+					if sp.StopAtMs >= 0 {
+						o.planStop = o.startAt + time.Duration(sp.StopAtMs)*time.Millisecond
 					} else {
-						cancel()
+						o.planStop = o.completeBy
 					}
-				}()
-				go func() {
-					err := run(runCtx)
-					returned.Store(true)
 					amu.Lock()
-					o.err = err
-					o.returned = true
-					o.returnedAt = time.Since(fake.start)
+					outs = append(outs, o)
 					amu.Unlock()
-					close(done)
-				}()
-				select {
-				case <-done:
-				case <-ctx.Done():
-					// The watchdog fired and vt cancelled the context. A call that does not even return then
-					// can never be unwound (and a ticker inside the code under test would keep virtual time
-					// running for ever), so the only sound exit is a loud one: the case was persisted before
-					// the run (Crashy) and the driver turns the abort into a VIOLATION with that replay file.
-					grace := time.NewTimer(time.Hour)
+					state.phase.Store(int32(i))
+					state.returned.Store(false)
+					phCtx, cancel := context.WithCancel(runCtx)
+					done := make(chan struct{})
+					stopperDone := make(chan struct{})
+					go func() {
+						defer close(stopperDone)
+						if sp.StopKind == stopNever {
+							return
+						}
+						tm := time.NewTimer(o.planStop - o.startAt)
+						defer tm.Stop()
+						select {
+						case <-tm.C:
+						case <-done:
+							return
+						case <-ctx.Done():
+							return
+						}
+						amu.Lock()
+						o.stopIssued = true
+						o.stopAt = time.Since(fake.start)
+						amu.Unlock()
+						if sp.StopKind == stopStop && stop != nil {
+							stop()
+						} else {
+							cancel()
+						}
+					}()
+					go func() {
+						err := run(phCtx)
+						state.returned.Store(true)
+						amu.Lock()
+						o.err = err
+						o.returned = true
+						o.returnedAt = time.Since(fake.start)
+						amu.Unlock()
+						close(done)
+					}()
 					select {
 					case <-done:
-						grace.Stop()
-					case <-grace.C:
-						msg := fmt.Sprintf("c16: hang-after-cancel: the call had not returned after %v of virtual time and still not one hour after its context was cancelled", limit)
-						reportHang(prop, c, msg)
-						panic(msg)
+					case <-ctx.Done():
+						// The watchdog fired and vt cancelled the context. A call that does not even return then
+						// can never be unwound (and a ticker inside the code under test would keep virtual time
+						// running for ever), so the only sound exit is a loud one: the case is reported and the
+						// process aborts; the driver turns that into a VIOLATION with the replay file.
+						grace := time.NewTimer(time.Hour)
+						select {
+						case <-done:
+							grace.Stop()
+						case <-grace.C:
+							msg := fmt.Sprintf("c16: hang-after-cancel: call %d had not returned when the watchdog fired after %v of virtual time and still not one hour after its context was cancelled", i, limit)
+							reportHang(prop, c, msg)
+							panic(msg)
+						}
+					}
+					<-stopperDone
+					cancel()
+					fake.mu.Lock()
+					o.firstSTH = fake.firstSTH
+					fake.mu.Unlock()
+					if ctx.Err() != nil {
+						return
 					}
 				}
-				<-stopperDone
 			})
 		})
-		o.timedOut = res.TimedOut
-		o.raced = !clean
 	}()
-	return o
+	if len(outs) == 0 {
+		outs = []*outcome{{fake: theFake, firstSTH: -1, spec: specs[0]}}
+	}
+	last := outs[len(outs)-1]
+	last.timedOut = res.TimedOut
+	last.deadlock = deadlock
+	last.raced = !clean
+	last.aborts = aborts
+	return outs
 }
 
 // reportHang makes a run that cannot be unwound a first-class finding before the process dies: it writes
